@@ -126,4 +126,9 @@ def check(ctx: Ctx) -> str:
         ctx.check("self._context.environment.concat(" in s, f"BlockReference.{meth}:env-concat", f"runtime:BlockReference.{meth}", "joins with environment.concat", f"BlockReference.{meth} must join the block's output with environment.concat", br.loc(br.methods[meth]))
     wc = repo.func("compiler:CodeGenerator.write_commons")
     ctx.check("concat = environment.concat" in ast.unparse(wc.node), "generated:concat", "compiler:CodeGenerator.write_commons", "generated code binds concat to environment.concat", "generated code must join buffers with environment.concat", wc.loc())
+    # the module body replayed by `include ... without context` holds the root generator's
+    # events themselves, not their text (rule owned by C10)
+    from . import c10
+
+    ctx.run_imported("C10", {"R1"}, c10.check)
     return __doc__ or ""
